@@ -118,8 +118,12 @@ class TBRMatchedMarkets:
     if n_geos_max is not None and len(geos) > n_geos_max:
       geos_with_max_impact = list(
           self.geo_req_impact.sort_values(ascending=False).index)
-      geos_in_order = list(geo for geo in geos_with_max_impact if geo in geos)
-      geos = set(geos_in_order[:n_geos_max])
+      # Geos that must be included are never dropped by the size limit.
+      geos_must_include = self.geos_must_include
+      geos_in_order = list(geo for geo in geos_with_max_impact
+                           if geo in geos and geo not in geos_must_include)
+      n_geos_free = max(n_geos_max - len(geos_must_include), 0)
+      geos = geos_must_include | set(geos_in_order[:n_geos_free])
     return geos
 
   @property
